@@ -5,6 +5,6 @@ Extraction Language OCaml.
 Extraction "model.ml" anchor init step step_as_written step_obs destroy_all live_blocks total_dtors
   sinit spec_step reachable must_be_destroyed
   cinit cstep run_sched finishedb final_values live_cblocks total_cfrees handles_total steps_bound
-  next_action accept replay finish push slen
+  next_action accept replay finish push slen peek speek trimv subv cat
   ninit nstep nstep_as_written nobs_touch nobs nlive_blocks ntotal_dtors ndestroy_all
   pinit pstep pobs palive_count pdead_count pdestroy_all.
